@@ -11,6 +11,7 @@ import (
 	"os"
 	"path/filepath"
 	"strings"
+	"time"
 )
 
 var propDefs = map[string]*PropDef{}
@@ -23,7 +24,8 @@ func init() {
 		Level: "proof",
 		Funcs: []string{"tcell.Color.Valid", "tcell.Color.IsRGB", "tcell.Color.Hex", "tcell.Color.RGB", "tcell.Color.TrueColor",
 			"tcell.NewHexColor", "tcell.NewRGBColor", "tcell.PaletteColor", "tcell.FindColor"},
-		Custom: []func(*PropRun){c16Tables},
+		Custom: []func(*PropRun){c16Tables, c16StringRoundTrip},
+		Bounded: []string{"ColorStrings/css-getcolor-image-roundtrip: CSS/GetColor/FromImageColor go through fmt, strconv and image/color; native enumeration (quick: lattice with step 5 plus boundary values; thorough: all 2^24 RGB values) - not a proof"},
 		Trusted: []string{"go-colorful DistanceCIE76 is a deterministic total function and is CIE76 delta-E (assumed contract cie76)",
 			"spec/std/css_colors.txt (W3C named colours, transcribed from x/image/colornames) and the xterm-256 formula in govc/props.go"},
 		Assume: []string{"FindColor: every palette member has the valid flag set (type invariant of a palette; ColorDefault inside a palette defeats the code's sentinel)"},
@@ -136,7 +138,7 @@ func init() {
 			"Tty.Write / io.Writer.Write report a count within bounds and touch no verified state (assumed)"},
 		Assume: []string{"drawCell is verified for calls on cells that are NOT dirty (unchanged, locked, or off the buffer): no output of any kind, no state change, width reported; the path that paints a dirty cell exceeds the verifier's path budget: its frame (only the cell itself and, for the auto-margin corner, its left neighbour change) and 'returns at least 1' are ASSUMED clauses",
 			"the whole-Show statement (no cell text at all when nothing changed; text only for changed cells and the listed neighbours) is the composition of: Dirty == specification predicate over the last-clean snapshot (C08), LockCell => not dirty, UnlockCell => dirty, SetContent with equal content leaves the cell clean (C08), drawCell silent on clean cells, draw calling drawCell only for screen cells and emitting no text itself; that composition is argued in DESIGN.md, not machine-checked",
-			"cell widths are non-negative (CellBuffer invariant; precondition)"},
+			"cell widths are non-negative: precondition of drawCell/draw; it is an invariant of CellBuffer proved under C08 (every mutator: ensures#widths), the composition over call histories being the usual induction, not a single obligation"},
 	})
 	reg(&PropDef{
 		ID:     "C04",
@@ -182,7 +184,7 @@ func init() {
 		Bounded: []string{"charset[*]/every-character-one-event: InjectKeyBytes on every character of every registered stateless charset, executed natively on the real code; not a proof"},
 		Trusted: []string{"transform.Transformer.Transform writes only into dst, returns counts within bounds and produces no output without consuming input (assumed interface contract); which bytes a charset produces is not modelled",
 			"utf8.EncodeRune returns 1..4 and writes only into its buffer (assumed)", "Go channels are FIFO: events come out of PollEvent in the order postEvent offered them (assumed)"},
-		Assume: []string{"cell widths are non-negative (CellBuffer invariant; stated precondition of drawCell/draw/Show)",
+		Assume: []string{"cell widths are non-negative: stated precondition of drawCell/draw/Show; an invariant of CellBuffer proved under C08 (every mutator: ensures#widths), composed over call histories by induction (not a single obligation)",
 			"Show is proved for the case without a pending resize; SetSize/resize are proved separately; Sync is not under contract",
 			"draw: that every changed cell is visited is proved for buffers without wide cells; per-cell fidelity is drawCell's contract, its composition over the whole scan (front == view of back for every cell) is not proved",
 			"InjectKeyBytes: the contract proves that no byte is declared undecodable before every prefix has been offered, termination, and memory safety; the exact event per character depends on the decoder (assumed contract)"},
@@ -197,7 +199,7 @@ func init() {
 			"syscall/js: Value.Int/Bool/String are functions of the value; Call/Set/FuncOf do not touch Go state (assumed contracts in spec/trusted/js.spec)",
 			"sync.Mutex semantics; absence of self-deadlock follows from lock balance on every path",
 			"DOM naming: MouseEvent.which 1/2/3 = left/middle/right; KeyboardEvent.key names map to tcell key constants by the rule in govc/c19.go (domKeyConst)"},
-		Assume: []string{"cell widths are non-negative (CellBuffer invariant kept by SetContent/Fill/Resize; stated as a precondition of draw/Show)",
+		Assume: []string{"cell widths are non-negative: stated precondition of draw/Show; an invariant of CellBuffer proved under C08 (every mutator: ensures#widths), composed over call histories by induction (not a single obligation)",
 			"draw: completeness of the scan (every changed cell is visited) is proved for buffers without wide or blank-normalised cells; for wide cells only 'every visited cell is a cell of the screen and unchanged cells are not touched' is proved",
 			"not decided: Sync, SetSize's effect on the page, the JavaScript side; EnableFocus/DisableFocus install their handler inline (straight-line, not under contract)"},
 	})
@@ -259,6 +261,69 @@ func loadCSSTable() (map[string]int64, []string, error) {
 
 // c16Tables: exhaustive, entry-by-entry obligations over the finite tables, each decided by
 // evaluating the REAL functions (PaletteColor, GetColor, Hex, CSS-free) on the concrete entry.
+// c16StringRoundTrip: CSS() / GetColor() / FromImageColor() go through fmt, strconv and image/color, which are outside
+// the verifier's reach.  BOUNDED stand-in, executed natively on the real code: every palette index, every named colour
+// and every RGB value of a lattice (quick: components in steps of 5 plus the boundaries around 0x0F/0x10 and 0xFF;
+// thorough: all 2^24) - CSS() is '#' + six upper-case hex digits of Hex(), GetColor(CSS()) has the same Hex(),
+// FromImageColor of the opaque colour is NewRGBColor of its components, invalid and special colours give "".
+func c16StringRoundTrip(run *PropRun) {
+	step := 5
+	if run.Tier == "thorough" {
+		step = 1
+	}
+	src := replayTest("tcell", []string{"image/color"}, fmt.Sprintf(`
+	step := %d
+	const digits = "0123456789ABCDEF"
+	n := 0
+	check := func(c Color) bool {
+		n++
+		h := c.Hex()
+		want := "#" + string([]byte{digits[(h>>20)&15], digits[(h>>16)&15], digits[(h>>12)&15], digits[(h>>8)&15], digits[(h>>4)&15], digits[h&15]})
+		if got := c.CSS(); got != want { fmt.Printf("COLORENUM FAIL Color(%%#x).CSS() = %%q, want %%q\n", uint64(c), got, want); return false }
+		if back := GetColor(want); back.Hex() != h || !back.Valid() { fmt.Printf("COLORENUM FAIL GetColor(%%q).Hex() = %%#x, want %%#x\n", want, back.Hex(), h); return false }
+		return true
+	}
+	for i := 0; i < 256; i++ { if !check(PaletteColor(i)) { fail("palette colour %%d", i); return } }
+	for name, c := range ColorNames { if !check(c) { fail("named colour %%s", name); return } }
+	vals := []int32{}
+	for v := int32(0); v < 256; v += int32(step) { vals = append(vals, v) }
+	if step > 1 { vals = append(vals, 1, 9, 14, 15, 16, 17, 127, 128, 254, 255) }
+	for _, r := range vals {
+		for _, g := range vals {
+			for _, b := range vals {
+				c := NewRGBColor(r, g, b)
+				if !check(c) { fail("rgb %%d,%%d,%%d", r, g, b); return }
+				if ic := FromImageColor(color.RGBA{uint8(r), uint8(g), uint8(b), 255}); ic != c {
+					fmt.Printf("COLORENUM FAIL FromImageColor(%%d,%%d,%%d) = %%#x, want %%#x\n", r, g, b, uint64(ic), uint64(c)); fail("image colour"); return
+				}
+			}
+		}
+	}
+	for _, c := range []Color{ColorDefault, ColorNone, ColorReset, Color(0), Color(12345)} {
+		if c.CSS() != "" { fmt.Printf("COLORENUM FAIL Color(%%#x).CSS() = %%q for a colour that is not valid\n", uint64(c), c.CSS()); fail("invalid colour"); return }
+	}
+	fmt.Printf("COLORENUM OK %%d\n", n)`, step))
+	out, err := runOverlayTest(run.Eng.Repo, run.Eng.Repo, src, 600*time.Second, nil)
+	ok, detail := false, ""
+	for _, ln := range strings.Split(out, "\n") {
+		if strings.HasPrefix(ln, "COLORENUM OK ") {
+			ok = true
+			detail = strings.TrimPrefix(ln, "COLORENUM OK ") + " colours"
+		}
+		if strings.HasPrefix(ln, "COLORENUM FAIL ") && detail == "" {
+			detail = strings.TrimPrefix(ln, "COLORENUM FAIL ")
+		}
+	}
+	if !ok && detail == "" {
+		run.Errors = append(run.Errors, fmt.Sprintf("colour string enumeration did not run: %v %s", err, tail(out, 400)))
+		return
+	}
+	g := run.AddObligation("tcell.ColorStrings/css-getcolor-image-roundtrip", "table-bounded", BoolT(ok),
+		fmt.Sprintf("CSS() is '#RRGGBB' of Hex(), GetColor(CSS()) and FromImageColor round-trip, invalid colours give \"\" (native enumeration on the real code, component step %d): %s", step, detail))
+	g.ReplayGo = src
+	run.Extra["colour_string_enumeration_component_step_bounded"] = step
+}
+
 func c16Tables(run *PropRun) {
 	e := run.Eng
 	ev := e.NewEvaluator(true, "C16.tables")
